@@ -33,6 +33,9 @@ type PN struct {
 
 const NOW = 99
 
+// EPOCH is the abstract time of the Unix epoch itself (a header whose mtime field is zero).
+const EPOCH = 900
+
 var Base = time.Unix(1700000000, 0)
 
 var fixedTokens = map[string]bool{"": true, ".": true, "..": true, ".git": true, ".terraform": true,
@@ -247,6 +250,9 @@ func ContentBack(b []byte) int {
 // TimeOf: t < 1000 is whole seconds after Base; t >= 1000 encodes
 // sec*10 + tenths as 1000 + sec*10 + tenths (fractional mtimes for Pack).
 func TimeOf(t int) time.Time {
+	if t == EPOCH {
+		return time.Unix(0, 0)
+	}
 	if t >= 1000 {
 		x := t - 1000
 		return Base.Add(time.Duration(x/10)*time.Second + time.Duration(x%10)*100*time.Millisecond)
@@ -261,6 +267,9 @@ func (g *Gamma) ContentBack(b []byte) int {
 }
 
 func TimeBack(mt time.Time) int {
+	if mt.Unix() == 0 && mt.Nanosecond() == 0 {
+		return EPOCH
+	}
 	d := mt.Sub(Base)
 	if d >= 0 && d < 90*time.Second && mt.Nanosecond() == 0 {
 		return int(d / time.Second)
